@@ -311,6 +311,12 @@ fn sets(nreq: usize, three: bool) -> Vec<SetSpec> {
         SetSpec { name: "hash-collision-xor-fold([aa]-vs-[bb])", transfers: vec![upload_script(1, 3, &[b"aa"], 0, nreq, 0, "PUT [aa]"), upload_script(1, 3, &[b"bb"], 0, nreq, 0, "PUT [bb]")] },
         SetSpec { name: "same-ends-and-length([sensor-a1x]-vs-[sensor-b1x])", transfers: vec![download_script(1, &[b"sensor-a1x"], 0, nreq, "GET a"), download_script(1, &[b"sensor-b1x"], 0, nreq, "GET b")] },
         SetSpec { name: "long-common-prefix(300B)", transfers: vec![upload_script(1, 3, &[&[b'k'; 300][..], b"1"], 0, nreq, 0, "PUT k..,1"), upload_script(1, 3, &[&[b'k'; 300][..], b"2"], 0, nreq, 0, "PUT k..,2")] },
+        // escapes a flattened key might use for '/' inside a segment
+        SetSpec { name: "percent-escape([fw/slot]-vs-[fw%2Fslot])", transfers: vec![upload_script(1, 3, &[b"fw/slot"], 0, nreq, 0, "PUT [fw/slot]"), upload_script(1, 3, &[b"fw%2Fslot"], 0, nreq, 0, "PUT [fw%2Fslot]")] },
+        SetSpec { name: "percent-escape-lowercase([a/b]-vs-[a%2fb])", transfers: vec![download_script(1, &[b"a/b"], 0, nreq, "GET [a/b]"), download_script(1, &[b"a%2fb"], 0, nreq, "GET [a%2fb]")] },
+        SetSpec { name: "backslash-escape([a/b]-vs-[a\\/b])", transfers: vec![download_script(1, &[b"a/b"], 0, nreq, "GET [a/b]"), download_script(1, &[b"a\\/b"], 0, nreq, "GET [a\\/b]")] },
+        SetSpec { name: "escaped-escape([a%b]-vs-[a%25b])", transfers: vec![upload_script(1, 3, &[b"a%b"], 0, nreq, 0, "PUT [a%b]"), upload_script(1, 3, &[b"a%25b"], 0, nreq, 0, "PUT [a%25b]")] },
+        SetSpec { name: "separator-in-segment([a,b]-vs-[a\\0b])", transfers: vec![upload_script(1, 3, &[b"a", b"b"], 0, nreq, 0, "PUT [a,b]"), upload_script(1, 3, &[b"a\0b"], 0, nreq, 0, "PUT [a NUL b]")] },
         SetSpec { name: "root-vs-one-empty-segment", transfers: vec![download_script(1, &none, 0, nreq, "GET []"), download_script(1, &[b""], 0, nreq, "GET [\"\"]")] },
         SetSpec { name: "leading-empty-segment([x]-vs-[,x])", transfers: vec![upload_script(1, 3, &x, 0, nreq, 0, "PUT [x]"), upload_script(1, 3, &[b"", b"x"], 0, nreq, 0, "PUT [\"\",x]")] },
         SetSpec { name: "trailing-empty-segment([x]-vs-[x,])", transfers: vec![download_script(1, &x, 1, nreq, "GET [x]"), download_script(1, &[b"x", b""], 1, nreq, "GET [x,\"\"]")] },
